@@ -579,7 +579,7 @@ int main(int argc, char** argv) {
         return 0;
     }
     for (auto& c : load_corpus(argc > 4 ? argv[4] : NULL)) run_case(out, g, c.first, c.second);
-    long N = g_thorough ? 4000 : 160;
+    long N = g_thorough ? 2000 : 160;
     for (long i = 0; i < N; i++) gen_case(out, g, argv[3]);
     out.close();
     return 0;
